@@ -131,7 +131,8 @@ def work_check_binary(bins, strings):
     for i, s in enumerate(strings):
         if "\x00" in s:
             continue
-        r = core.run_zerv(bins, ["check", "--format", "semver", "--", s])
+        # the verdict is a function of the string: something valid waiting on stdin (every other run) must not matter
+        r = core.run_zerv(bins, ["check", "--format", "semver", "--", s], stdin="1.2.3\n" if i % 2 else None)
         n += 1
         if r["timeout"]:
             continue
@@ -262,7 +263,7 @@ def run(ctx):
         ctx.evaluations += r["n"]
         ctx.count("check_cli_runs", r["n"])
         total["bad"] += r["bad"]
-    bsample = rng.sample(sample, 400 if quick else 12000)
+    bsample = ["-", "--", "-.-", "@-", "v", "1.2.3", "1.0", "stdin", "/dev/stdin"] + rng.sample(sample, 400 if quick else 12000)      # `-` means "read stdin" to many tools
     res4 = core.pmap(work_check_binary, [(ctx.bins, l) for l in core.split_even(bsample, 16)])
     for r in res4:
         ctx.evaluations += r["n"]
